@@ -25,6 +25,9 @@ pub fn sim_main(run_once: fn(Vec<String>) -> Result<(), String>) -> ! {
     std::process::exit(match code {
         0 => 40,
         1 => 41,
-        _ => 42,
+        2 => 42,
+        // a batch worker died (abort, stack overflow, exit inside the code under test): pass its
+        // status on, the wrapper script probes the runs that were in flight
+        other => other,
     })
 }
